@@ -2,14 +2,16 @@
 """Copies confirmed seeded changes into /verif/seeded/<id>/ with meta.json (what it breaks, what it
 needs, what was run to confirm it, which checks catch it)."""
 import json, os, shutil, sys
-OUT = sys.argv[1]
+OUTS = sys.argv[1:]
 conf = json.load(open('/tmp/sv/results.json'))
 runs = json.load(open('/tmp/sv/seedrun_results.json'))
 dst = '/verif/seeded'
 for sid, c in sorted(conf.items()):
     if not c.get('confirmed'):
         continue
-    d = os.path.join(OUT, sid)
+    d = next((os.path.join(o, sid) for o in OUTS if os.path.exists(os.path.join(o, sid, 'patch.diff'))), None)
+    if d is None:
+        continue
     t = os.path.join(dst, sid)
     os.makedirs(t, exist_ok=True)
     for f in ('patch.diff', 'demo_test.patch', 'demo.rs'):
@@ -30,11 +32,13 @@ for sid, c in sorted(conf.items()):
             'suite_with_change': c.get('suite_with_change'),
             'demo_with_change_failed_tests': c.get('demo_with_change', {}).get('failed'),
             'demo_without_change_failed_tests': c.get('demo_without_change', {}).get('failed'),
+            'manual': c.get('manual'),
         },
         'checks_run': 'python3 -m vf.check --all with VERIF_REPO pointing at a scratch worktree of /repo HEAD with patch.diff applied (tools/run_seeds.py)',
         'caught_by': sorted(p for p, v in checks.items() if v.get('exit') == 1),
         'undecided': sorted(p for p, v in checks.items() if v.get('exit') == 2),
         'own_property_result': {0: 'MISSED (exit 0)', 1: 'caught (VIOLATION)', 2: 'undecided (exit 2)'}.get(checks.get(sid.split('-')[0], {}).get('exit'), 'not run'),
+        'bounded_only': sorted(set(l.split()[1].split('=')[1] for l in r.get('lines', []) if l.startswith('VIOLATION') and 'obligation=bounded:' in l)),
         'sample_lines': r.get('lines', [])[:4],
     }
     json.dump(meta, open(os.path.join(t, 'meta.json'), 'w'), indent=1)
